@@ -9,13 +9,62 @@ TRUSTED_BASE_COMMON = [
     "the correspondence check is differential testing: agreement of model and implementation is established on the cases run, not for all inputs",
 ]
 
+READER_TB = ["compress/flate's reader is replaced by the Gallina inflate (Spec/Inflate.v, differentially tested against Go and zlib); bufio.Reader and io.ReadAll are re-implemented in the model (Model/Bufio.v, read_all) and exercised against the real ones on every case",
+             "io.ReadAll's capacity growth schedule is an oracle read off the Go runtime by the harness"]
+
 PROPS = {
+    "C03": {
+        "harness": ["C03"],
+        "technique": "Coq proof (induction over arbitrary conformant frame lists and arbitrary bufio/transport states) + differential correspondence of the real reader against the extracted model and Spec decoder",
+        "level_text": "Theorems C03_reader_decodes_partial / C03_end_only_at_true_end / C03_independent_of_chunking_and_buffers: for every conformant uncompressed frame list (any fragmentation, empty frames, any mask keys, all length forms, pings/pongs anywhere), every role, every read-buffer size >= 125, every initial buffering, every transport chunking and fault delivery, every ReadAll growth schedule, the ReadMessage loop returns exactly the encoded messages in order, answers pings, and reports the end only at the true end. Partial w.r.t. the property text: compressed messages, NextReader+Read of arbitrary sizes, abandonment and close frames are decided by the correspondence check (and Props/C06, C08) only.",
+        "level_note": "model = Model/Reader.v + Model/Bufio.v (hand-written, tied by the correspondence on every run); theorem covers uncompressed streams and the ReadMessage loop with default handlers; flate inflate is Spec code validated against Go",
+        "assumptions": ["transport never returns (0, nil)", "frame lists shorter than 2^63 bytes"],
+        "trusted_base": READER_TB,
+        "design_ref": "7/C03",
+    },
+    "C05": {
+        "harness": ["C05"],
+        "technique": "Coq proof (every cut offset of every conformant stream, every fault kind and delivery, every chunking and buffer size, by induction over the frame list and case analysis on where the cut falls) + correspondence at every cut offset x fault delivery on the real reader",
+        "level_text": "Theorems C05_cut_stream_whole_messages_then_error (complete messages delivered intact and in order, then a real error with exactly the received part of the truncated message, nothing queued for a truncated control frame, everything afterwards fails), C05_error_is_not_eof, C05_reader_eof_only_at_true_end (io.Reader level, any state: io.EOF only after the final frame was consumed completely - the repaired defect), C05_partial_message_reader_never_eof (NextReader + Read of any sizes), C05_errors_are_permanent (any operation sequence).",
+        "level_note": "uncompressed streams and default handlers in the stream-level theorems; compressed messages and the flate reader's buffering are decided by the correspondence check (Spec predicate only, no model equality, for compressed + faulted cases)",
+        "assumptions": ["transport never returns (0, nil)", "streams shorter than 2^63 bytes"],
+        "trusted_base": READER_TB,
+        "design_ref": "7/C05",
+    },
+    "C06": {
+        "harness": ["C06"],
+        "technique": "Coq proof (accounting invariant over arbitrary frame lists, limits and abandonment points; instrumented request-size bound) + differential correspondence with limits/fragmentations/histories/huge declared lengths",
+        "level_text": "Theorems C06_next_message_within_limit_is_read (completeness + history independence from ANY abandonment point, any fragmentation, control frames not counted), C06_count_restarts_with_each_message, C06_history_independent, C06_over_limit_never_complete (ErrReadLimit, <= L bytes delivered, 1009 close, permanent), C06_crossing_frame_refused_before_payload (only the header consumed; overflow >= 2^63 refused without close), C06_top_bit_length_refused, C06_request_sizes_bounded (every request to the buffered transport <= max(125, app buffer, 8192)).",
+        "level_note": "uncompressed streams (with compression the limit counts wire bytes; exercised by the correspondence only); real allocator behaviour is measured (largest transport request) not proved",
+        "assumptions": ["default handlers", "frame lists shorter than 2^63 bytes for the message-level theorems"],
+        "trusted_base": READER_TB,
+        "design_ref": "7/C06",
+    },
     "C13": {
+        "harness": ["C13"],
         "technique": "Coq proof (iff characterisation of the origin rule on the Gallina model, all byte strings) + differential correspondence of checkSameOrigin/Upgrade against the extracted model",
         "level_text": "Theorem C13_origin_policy: for every Host, Origin list and url.Parse oracle, the origin stage passes iff there is no Origin or the parsed host equals Host byte-for-byte after ASCII lowering; corollaries for look-alike bytes and length. Tied to the code by running Upgrader{}.Upgrade and checkSameOrigin on generated (Host, Origin) pairs and judging them with the extracted Spec predicate.",
         "level_note": "url.Parse is an oracle (its real answer is recorded per case and given to the model); net/http header canonicalisation is trusted; agreement is on the cases run.",
         "assumptions": ["url.Parse(origin).Host is taken from the real net/url on every case (oracle)"],
         "trusted_base": ["net/url.Parse as an oracle (Section variable url_host_of)"],
         "design_ref": "7/C13",
+    },
+    "C15": {
+        "harness": ["C15"],
+        "technique": "Coq proof (agreement for all offer lines and settings; kernel evaluation of parseExtensions on the literals regenerated from the source) + real Dialer vs real Upgrader correspondence",
+        "level_text": "Theorems C15_endpoints_agree (for every offer-line list reaching the Upgrader and every setting, the Dialer's decision on the Upgrader's reply equals the Upgrader's), C15_setting_matrix (compression iff both enabled), C15_client_requires_both_parameters, C15_tied_to_upgrade / C15_tied_to_validate_reply (these are the decisions inside the handshake models), C15_literals_from_source. Message flow with toggles is C01/C02.",
+        "level_note": "net/http (de)serialisation of the extension header is an oracle; the literals are read from the source by go/parser on every run",
+        "assumptions": [],
+        "trusted_base": ["net/http header parsing/serialisation (oracle)"],
+        "design_ref": "7/C15",
+    },
+    "C17": {
+        "harness": ["C17"],
+        "technique": "Coq proof (the reader built at the handshake boundary has pending = buffered ++ socket for every split and size; C03's theorem then applies) + correspondence through real Upgrade / Dial at every split offset",
+        "level_text": "Theorems C17_reader_sees_the_whole_stream and C17_messages_after_handshake_delivered: for every split of the stream between the hijacked bufio.Reader and the socket, every ReadBufferSize and hijacked reader size, every socket chunking and fault, the connection's reader sees exactly the bytes following the handshake and delivers the messages they encode. Client side: http.ReadResponse consuming exactly the header block is an oracle; every split of 101+frames is run through the real Dial.",
+        "level_note": "server side proved on the model of Upgrade's reader choice (upgrade_reader) and brNetConn; client side relies on the net/http oracle and the correspondence",
+        "assumptions": ["hijacked reader holds at most its capacity"],
+        "trusted_base": READER_TB + ["net/http: Hijack hands over its bufio.Reader; ReadResponse leaves the bytes after the header block in the reader"],
+        "design_ref": "7/C17",
     },
 }
